@@ -39,6 +39,10 @@ func newSyntaxError(err SyntaxError) *Node {
 }
 
 func (self *Parser) syntaxError(err types.ParsingError) SyntaxError {
+	/* the native scanners step up to 4 bytes over the end before they report EOF */
+	if self.p > len(self.s) {
+		self.p = len(self.s)
+	}
 	return SyntaxError{
 		Pos:  self.p,
 		Src:  self.s,
